@@ -16,8 +16,9 @@ def key_pool(spec):
             ks.add(p['name'])
             if '_' in p['name']:
                 ks.add(p['name'].replace('_', '-'))
+        ks.update(c.get('kwonly', []))
     ks.update(['foreign_key', 'kind', 'verif_unknown_key', 'self',
-               '_yatiml_extra'])
+               '_yatiml_extra', 'return', 'args', 'kwargs', 'cls'])
     return sorted(ks)
 
 
